@@ -777,8 +777,25 @@ func (ls *LState) isStarted() bool {
 
 func (ls *LState) kill() {
 	ls.Dead = true
-	if ls.ctxCancelFn != nil {
-		ls.ctxCancelFn()
+	ls.releaseContext()
+}
+
+// releaseContext gives up the context a dead thread got from NewThread (cancelling it detaches it
+// from its parent context). Threads created by this thread derive their contexts from it, so the
+// release waits until the last of them has released its own: a coroutine must not be cancelled just
+// because the coroutine that created it has finished.
+func (ls *LState) releaseContext() {
+	if ls.ctxCancelFn == nil || ls.ctxChildren > 0 {
+		return
+	}
+	ls.ctxCancelFn()
+	ls.ctxCancelFn = nil
+	if creator := ls.ctxCreator; creator != nil {
+		ls.ctxCreator = nil
+		creator.ctxChildren--
+		if creator.Dead {
+			creator.releaseContext()
+		}
 	}
 }
 
@@ -1414,6 +1431,8 @@ func (ls *LState) NewThread() (*LState, context.CancelFunc) {
 		thread.mainLoop = mainLoopWithContext
 		thread.ctx, f = context.WithCancel(ls.ctx)
 		thread.ctxCancelFn = f
+		thread.ctxCreator = ls
+		ls.ctxChildren++
 	}
 	return thread, f
 }
